@@ -38,7 +38,8 @@ OBLIGATIONS = {"exhaustive-grid": 500, "shape:1xk": 20, "shape:kx1": 20,
                "shape:2xk": 20, "shape:kx2": 20, "shape:>=3x3": 20,
                "diagonal-step": 100, "inlet-on-chain": 20, "cycle-through-outlet": 20,
                "area>=2": 200, "river": 200, "flowpath": 100, "relation": 500,
-               "sink": 50, "offgrid": 50, "invalid-code": 50, "tight-buffer": 5}
+               "sink": 50, "offgrid": 50, "invalid-code": 50, "tight-buffer": 5,
+               "flowpath:empty-area": 5}
 CODES = [1, 2, 4, 8, 16, 32, 64, 128, 0, 3]
 
 
@@ -163,6 +164,10 @@ def check_flowpaths(ctx, cat, model, outlet, ref, case):
     cat.compute_flowpathlengths()
     fp = cat.flowpathlengths
     ctx.tag("flowpath")
+    if fp is None or not hasattr(fp, "values"):
+        ctx.check("flowpath.computed", False, "flowpathlengths|not-stored", case,
+                  {"flowpathlengths": repr(fp), "area_size": len(ref)})
+        return
     vals = fp.values
     bad = None
     okshape = vals.shape == (len(ref), 3)
@@ -265,8 +270,12 @@ def run_grid(ctx, codes, case_base, full=True, rng=None, max_outlets=None):
             ref = check_area(ctx, cat, model, o, list(inl), case, cyc=cyc)
             if ref is not None and len(ref) >= 2:
                 ctx.nontrivial(codes, o, inl)
-                if len(inl) == 0:
-                    check_flowpaths(ctx, cat, model, o, ref, case)
+            # the catchment object is reused from outlet to outlet: the table must
+            # describe the area delineated last, also when that area is empty
+            if ref is not None and (len(inl) == 0 or ctx.evaluations % 4 == 0):
+                if len(ref) == 0:
+                    ctx.tag("flowpath:empty-area")
+                check_flowpaths(ctx, cat, model, o, ref, case)
     starts = range(n) if not max_outlets else \
         [int(s) for s in rng.choice(n, size=min(n, max_outlets), replace=False)]
     for s in starts:
